@@ -6,7 +6,7 @@ CONSTANTS
  MCPairs = {"tworeg", "samereg", "dir2reg"}
  MCOpts <- MCOptsDefault
  MCFeats <- MCFeatsMount
- MCInit = "corners"
+ MCInit = "empty"
  MCTag0 = {"stale"}
  MCByDigest = {FALSE}
  MCTgtByDigest = {FALSE}
